@@ -246,6 +246,17 @@ class RaisingFieldType(FieldType):
         return super().make_desired_cell_ch_chunks(value, fmt_modifier, field_palette)
 
 
+class LegendTable(PPTable):
+    """a user's table class: the documented line generator is overridden to append a legend"""
+
+    def gen_ch_lines(self, cp):
+        n = 0
+        for line in super().gen_ch_lines(cp):
+            n += 1
+            yield line
+        yield CHText(cp.text(f"-- {n} lines above"))
+
+
 class CenterFieldType(FieldType):
     """a user's field type that centres its values"""
 
@@ -319,10 +330,11 @@ def build_object(spec, enums):
             recs = [(tuple(r[:2]), {"k": r[2] if len(r) > 2 else None}, _Attr(r[-1])) for r in spec["records"]]
         if spec.get("skip_columns"):
             kw["skip_columns"] = list(spec["skip_columns"])
-        t = PPTable(recs, header=spec.get("header"), footer=spec.get("footer"), fmt=spec.get("fmt"), **kw)
+        tcls = LegendTable if spec.get("usersub") else PPTable
+        t = tcls(recs, header=spec.get("header"), footer=spec.get("footer"), fmt=spec.get("fmt"), **kw)
         if spec.get("via_fmt_obj"):
             # a second table constructed from the format object of the first one
-            t = PPTable(recs, header=spec.get("header"), footer=spec.get("footer"), fmt_obj=t.fmt)
+            t = tcls(recs, header=spec.get("header"), footer=spec.get("footer"), fmt_obj=t.fmt)
         return Built(k, t, spec, recs)
     if k == "ppwrap":
         return Built(k, akppobj.PPWrap(spec["value"]), spec)
@@ -352,7 +364,8 @@ def build_sibling(src, spec, limits, skip):
         kw["limits"] = tuple(limits)
     if skip:
         kw["skip_columns"] = list(skip)
-    t = PPTable(recs, header=spec.get("header"), footer=spec.get("footer"), fmt_obj=src.obj.fmt, **kw)
+    tcls = LegendTable if spec.get("usersub") else PPTable
+    t = tcls(recs, header=spec.get("header"), footer=spec.get("footer"), fmt_obj=src.obj.fmt, **kw)
     return Built("table", t, spec, recs)
 
 
